@@ -28,7 +28,7 @@ from importlib.metadata import PackageNotFoundError, version
 from typing import Any, Optional
 
 from boolean.boolean import Expression
-from license_expression import Licensing
+from license_expression import ExpressionError, Licensing
 
 try:
     __version__ = version("reuse")
@@ -43,7 +43,25 @@ __REUSE_version__ = "3.3"
 
 _LOGGER = logging.getLogger(__name__)
 
-_LICENSING = Licensing()
+
+
+class _Licensing(Licensing):
+    """:class:`Licensing` whose :meth:`parse` reports every unparseable
+    expression in the same way.
+    """
+
+    def parse(self, expression: Any, *args: Any, **kwargs: Any) -> Any:
+        try:
+            return super().parse(expression, *args, **kwargs)
+        except (IndexError, AssertionError) as error:
+            # Some malformed expressions, such as '( )' or '( OR MIT', trip
+            # up the parser instead of being rejected by it.
+            raise ExpressionError(
+                f"Invalid expression: {expression!r}"
+            ) from error
+
+
+_LICENSING = _Licensing()
 
 
 class SourceType(Enum):
